@@ -17,7 +17,8 @@ import z3
 from .core import (Conc, Z, TupV, ExcV, ObjV, BoundM, FuncV, OPAQUE_STR, OpaqueStr, PyRaise,
                    Untranslatable, PathEnd, fresh, _Break, _Continue)
 from .objtheory import sval, S, I, B, strlen, strcat, lit, casefold
-from .lextheory import LexTheory, set_has, sub_in, tid, optstr
+from .objtheory import prefixof, suffixof
+from .lextheory import LexTheory, set_has, sub_in, tid, optstr, pairs_has
 
 R = z3.RealSort()
 anychar_in = z3.Function("any_char_of_text_in_table", I, S, B)      # any(c in TABLE for c in s)
@@ -26,6 +27,12 @@ sub_any = z3.Function("some_member_is_substring", I, S, B)           # exists x 
 tok_pred = z3.Function("Token_predicate", I, I, S, B)                # (predicate id, configuration id, text)
 ident_ok = z3.Function("decoder_is_identifier", S, B)
 printable = z3.Function("str_isprintable", S, B)
+pair_part_in = z3.Function("some_pair_has_a_part_in_text", I, S, B)   # exists (a,b) in PAIRS: a in s or b in s
+comment_match = z3.Function("some_pair_delimits_text", I, S, B)       # exists (a,b): s starts with a and (ends with b or b is NL and no NL in s)
+pp_a = z3.Function("pair_part_witness_open", I, S, S)
+pp_b = z3.Function("pair_part_witness_close", I, S, S)
+cmw_a = z3.Function("comment_witness_open", I, S, S)
+cmw_b = z3.Function("comment_witness_close", I, S, S)
 cf_wit = z3.Function("casefold_witness", I, S, S)
 sub_wit = z3.Function("substring_witness", I, S, S)
 str_of = z3.Function("str_of_value", I, S)                            # str(value)
@@ -48,6 +55,11 @@ def type_id(name):
 CONFIGURED = z3.IntVal(1)        # Token(..., grammar=self.grammar, decoder=self.decoder)
 
 
+def _cm(t, a, b):
+    nl = lit("\n")
+    return z3.And(prefixof(t, a), z3.Or(suffixof(t, b), z3.And(b == nl, z3.Not(sub_in(nl, t)))))
+
+
 def gconst(name):
     return z3.Const("grammar_" + name, S)
 
@@ -58,7 +70,7 @@ class EncTheory(LexTheory):
     candidate_models = True
 
     def axioms(self):
-        x, y = z3.Consts("ex ey", S)
+        x, y, w = z3.Consts("ex ey ew", S)
         k = z3.Const("ek", I)
         v = z3.Const("ev", I)
         return super().axioms() + [
@@ -71,6 +83,16 @@ class EncTheory(LexTheory):
                       patterns=[cf_in(k, y)]),
             z3.ForAll([k, y], z3.Implies(sub_any(k, y), z3.And(set_has(k, sub_wit(k, y)), sub_in(sub_wit(k, y), y))),
                       patterns=[sub_any(k, y)]),
+            z3.ForAll([k, x, y, w], z3.Implies(z3.And(pairs_has(k, x, w), z3.Or(sub_in(x, y), sub_in(w, y))), pair_part_in(k, y)),
+                      patterns=[z3.MultiPattern(pairs_has(k, x, w), pair_part_in(k, y))]),
+            z3.ForAll([k, y], z3.Implies(pair_part_in(k, y), z3.And(
+                pairs_has(k, pp_a(k, y), pp_b(k, y)), z3.Or(sub_in(pp_a(k, y), y), sub_in(pp_b(k, y), y)))),
+                patterns=[pair_part_in(k, y)]),
+            z3.ForAll([k, x, y, w], z3.Implies(z3.And(pairs_has(k, x, w), _cm(y, x, w)), comment_match(k, y)),
+                      patterns=[z3.MultiPattern(pairs_has(k, x, w), comment_match(k, y))]),
+            z3.ForAll([k, y], z3.Implies(comment_match(k, y), z3.And(
+                pairs_has(k, cmw_a(k, y), cmw_b(k, y)), _cm(y, cmw_a(k, y), cmw_b(k, y)))),
+                patterns=[comment_match(k, y)]),
             z3.ForAll([v], z3.Implies(type_is(v, type_id("bool")), type_is(v, type_id("self.numeric_types"))),
                       patterns=[type_is(v, type_id("bool"))]),
         ]
@@ -140,7 +162,7 @@ class EncTheory(LexTheory):
                 return Z("str", gconst(attr))
             if attr == "quotes":
                 return TupV([Z("str", gconst("quote1")), Z("str", gconst("quote2"))])
-            if attr in ("reserved_keywords", "format_effectors", "whitespace", "reserved_characters", "end_statements"):
+            if attr in ("reserved_keywords", "format_effectors", "whitespace", "reserved_characters", "end_statements", "delimiters"):
                 return ObjV("strset", info={"id": tid("g." + attr), "name": attr})
             if attr == "comments":
                 return ObjV("pairs", info={"id": tid("g.comments")})
@@ -152,6 +174,9 @@ class EncTheory(LexTheory):
             return FuncV("datetime." + attr)
         if isinstance(recv, ObjV) and recv.role == "self" and recv.cls == "Token" and attr in ("grammar", "decoder"):
             return ObjV(attr, info={"owner": "self"})
+        if (isinstance(recv, ObjV) and recv.role == "self" and recv.cls == "Token" and hasattr(str, attr)
+                and (self.program is None or self.program.find_method("Token", attr)[1] is None)):
+            return BoundM(recv, attr)        # a method of str on the token text
         return super().getattr(ex, recv, attr)
 
     # ---- values ----------------------------------------------------------------------
@@ -290,7 +315,14 @@ class EncTheory(LexTheory):
         if isinstance(recv, ObjV) and recv.role == "kwmap" and name in ("keys", "values", "items"):
             return ObjV("strset", info={"id": tid("g.aggregation_keywords." + name), "name": "aggregation_keywords." + name})
         t = self.sv(recv)
+        if (isinstance(recv, ObjV) and recv.role == "self" and self.program is not None
+                and self.program.find_method(recv.cls, name)[1] is not None):
+            return super().call_method(ex, recv, name, args, kwargs)
         if t is not None:
+            if name == "startswith" and self.sv(args[0]) is not None:
+                return Z("bool", prefixof(t, self.sv(args[0])))
+            if name == "endswith" and self.sv(args[0]) is not None:
+                return Z("bool", suffixof(t, self.sv(args[0])))
             if name == "casefold":
                 return Z("str", casefold(t))
             if name == "isprintable":
@@ -314,7 +346,7 @@ class EncTheory(LexTheory):
                 except _Continue:
                     continue
             return self.search_loop(ex, node, itv.info["rest"], spec, ordn)
-        if isinstance(itv, ObjV) and itv.role == "strset":
+        if isinstance(itv, ObjV) and itv.role in ("strset", "pairs") and getattr(spec, "fall_through", None) is not None:
             return self.search_loop(ex, node, itv, spec, ordn)
         return super().for_loop(ex, node, itv, spec, ordn)
 
@@ -328,11 +360,17 @@ class EncTheory(LexTheory):
         if assigned_in(node.body) - {t.id for t in ast.walk(node.target) if isinstance(t, ast.Name)}:
             raise Untranslatable(f"search loop #{ordn} assigns variables")
         k = table.info["id"]
+        pairs = table.role == "pairs"
         c = ex.path.choose(2, f"for@{node.lineno}")
         if c == 0:
-            x = fresh("member", S)
-            ex.st.assume(set_has(k, x))
-            ex.assign(node.target, Z("str", x))
+            if pairs:
+                x = (fresh("member_open", S), fresh("member_close", S))
+                ex.st.assume(pairs_has(k, x[0], x[1]))
+                ex.assign(node.target, TupV([Z("str", x[0]), Z("str", x[1])]))
+            else:
+                x = fresh("member", S)
+                ex.st.assume(set_has(k, x))
+                ex.assign(node.target, Z("str", x))
             try:
                 ex.stmts(node.body)
             except _Break:
@@ -343,8 +381,12 @@ class EncTheory(LexTheory):
                 ex.oblige(f"{q}:{lname}:falls-through-only-when:{nm}", f)
             raise PathEnd()
         # normal end of the loop: every member fell through
-        xb = z3.Const("bound_member", S)
-        closure = z3.ForAll([xb], z3.Implies(set_has(k, xb), z3.And(*[f for _, f in J(ex.env, ex.st, xb)])))
+        if pairs:
+            xa, xc = z3.Const("bound_member_open", S), z3.Const("bound_member_close", S)
+            closure = z3.ForAll([xa, xc], z3.Implies(pairs_has(k, xa, xc), z3.And(*[f for _, f in J(ex.env, ex.st, (xa, xc))])))
+        else:
+            xb = z3.Const("bound_member", S)
+            closure = z3.ForAll([xb], z3.Implies(set_has(k, xb), z3.And(*[f for _, f in J(ex.env, ex.st, xb)])))
         for nm, f in E(ex.env, ex.st):
             ex.oblige(f"{q}:{lname}:exit-fact-is-the-forall-closure:{nm}", z3.Implies(closure, f))
             ex.st.assume(f)
